@@ -855,7 +855,14 @@ class Frame:
             return self.ex.std.copy_value(v) if isinstance(v, Agg) or hasattr(v, 'items') else v
         if 'Move' in o:
             return self.place(o['Move']).get()
-        return self.const(o['Constant'])
+        if 'Constant' in o:
+            return self.const(o['Constant'])
+        if 'RuntimeChecks' in o:
+            # cfg!(debug_assertions / overflow_checks / ub_checks) as seen by generic std code: the dump is built with
+            # debug-assertions off and overflow-checks on
+            k = o['RuntimeChecks']
+            return k in ('OverflowChecks',) if isinstance(k, str) else False
+        raise Unmodelled(f'operand {list(o.keys())}')
 
     def binop(self, op, a, b):
         if op == 'Offset':
